@@ -21,4 +21,6 @@ void c17_reset (void);                    /* {"e":"Reset"}: forget everything, r
 void c17_abort (const char *why);         /* {"e":"Abort"}: the history is not error-free; it is discarded */
 void c17_note (const char *key, long v);  /* {"e":"Note"}: free-form measurement, ignored by the validation */
 long c17_events (void);
+long c17_straddling_protects (void); /* mem_protect requests (this execution) whose range covered > 1 page from a
+                                          patch-sized request: the patched bytes crossed a page boundary */
 #endif
